@@ -313,7 +313,7 @@ def c11_lengths(_):
         check("write_legacy_string", "read_legacy_string", s, L.to_bytes(2, "big") + s.encode(), (n, L))
         check("write_nullable_legacy_string", "read_nullable_legacy_string", s, L.to_bytes(2, "big") + s.encode(), (n, L))
     check("write_nullable_legacy_string", "read_nullable_legacy_string", None, b"\xff\xff", (n, -1))
-    for L in llens + [32768, 65535, 65536, 2**20 - 1, 2**20, 2**20 + 1, HUGE]:
+    for L in llens + [32768, 65535, 65536, 2**20 - 1, 2**20, 2**20 + 1, HUGE, 9 * 2**20 + 37]:  # (the last: beyond 8 MiB, followed by another byte)
         n += 1
         b = b"\x00" * L
         check("write_legacy_bytes", "read_legacy_bytes", b, L.to_bytes(4, "big") + b, (n, L))
